@@ -532,6 +532,34 @@ class Enum(object):
             for sc in self.scenarios_for(sig, target, 2, 8 if q else 16): yield sc
 
 
+
+def stacked_probes():
+    """log_call stacked over another (functools.wraps) decorator that supplies an argument itself: the decorated callable must accept and
+    reject exactly the calls the undecorated one does, with the same result / exception class (found missing by seeded change C18-4)"""
+    import functools
+    out = []; n = 0
+    def inject(fn):
+        @functools.wraps(fn)
+        def inner(*a, **kw): return fn("CONN", *a, **kw)
+        return inner
+    def raw(conn, q, limit=10): return (conn, q, limit)
+    def raw_kwonly(conn, q, *, limit=10): return (conn, q, limit)
+    calls = [(("q",), {}), (("q",), {"limit": 3}), ((), {"q": "x"}), (("q", 5), {}), ((), {}), (("q",), {"nope": 1})]
+    for rawfn in (raw, raw_kwonly):
+        plain = inject(rawfn)
+        for opts in ({}, {"include_result": False}, {"action_type": "probe"}):
+            dec = log_call(inject(rawfn), **opts) if opts else log_call(inject(rawfn))
+            for a, kw in calls:
+                n += 1
+                def run(f):
+                    try: return ("ret", f(*a, **kw))
+                    except Exception as e: return ("exc", type(e).__name__)
+                want, got = run(plain), run(dec)
+                if want != got:
+                    out.append(({"clause": "transparent-call", "family": "stacked-over-wraps-decorator"},
+                                "%s%r %r options %r: undecorated %r, decorated %r" % (rawfn.__name__, a, kw, opts, want, got)))
+    return n, out
+
 def main():
     fails = {}; known = {}; cases = 0; seen = set(); t0 = time.time()
     limit = 33 if args.tier == "quick" else 780
@@ -539,6 +567,11 @@ def main():
     truncated = False
     try:
         scs = [json.loads(args.scenario)] if args.scenario else Enum(args.tier, args.seed).all()
+        if not args.scenario:
+            pn, pf = stacked_probes()
+            cases += pn
+            if pf:
+                fails[json.dumps(pf[0][0], sort_keys=True)] = {"signature": pf[0][0], "scenario": {"probe": "stacked"}, "observed": [t for _, t in pf[:4]]}
         for sc in scs:
             if time.time() - t0 > limit: truncated = True; break
             cases += 1; seen.add(hash(json.dumps(sc, sort_keys=True)))
@@ -559,7 +592,7 @@ def main():
     for d in list(fails.values()) + list(known.values()): d.pop("count", None)
     q = args.tier == "quick"; TP = TIER_PARAMS.get(args.tier, TIER_PARAMS["thorough"])
     print(json.dumps({"cases": cases, "distinct": len(seen), "failures": list(fails.values()), "known": list(known.values()),
-                      "bound": ("every signature shape with <= %d explicit parameters (positional-only / positional-or-keyword / *args / keyword-only / **kwargs, every trailing-default pattern), "
+                      "bound": ("36 probe calls of log_call stacked over an argument-injecting functools.wraps decorator; every signature shape with <= %d explicit parameters (positional-only / positional-or-keyword / *args / keyword-only / **kwargs, every trailing-default pattern), "
                                 "plain names plus %d namings that put Eliot/boltons/inspect-colliding names (%d names incl. logger, action_type, _serializers, self, fields) at rotating positions, "
                                 "as function / method / staticmethod / classmethod; plus %d seeded-random signatures with <= 9 parameters; calls with 0..npos+1(+1) positional values and every keyword subset of size <= %d over "
                                 "parameter names + unknown + colliding keys (sampled, valid-heavy, %d per decorated function); options: 4 decorator forms x action_type {default, custom, ''} x 10 include_args variants "
